@@ -6,7 +6,7 @@ ENGINES = [
     {"name": "E1 symsem", "path": "vlib/symsem.py + vlib/sym.py", "kind_free_text":
         "real inference pipeline executed with symbolic weights (SymReal proxies through the real "
         "SemiringProbability; z3 Bool semiring for the world dimension)",
-     "serves_properties": ["C01"]},
+     "serves_properties": ["C01", "C06", "C07"]},
     {"name": "E2 refsem", "path": "vlib/refsem.py", "kind_free_text":
         "independent reference distribution semantics as z3 terms", "serves_properties": ["C01"]},
     {"name": "E3 tv", "path": "vlib/tv.py", "kind_free_text":
@@ -28,4 +28,11 @@ CHECKS["C10"] = dict(engine="E3 tv", category=TV,
     technique="SAT translation validation of each real (CNF, d-DNNF) pair: determinism, equivalence, label agreement by z3; decomposability/smoothness from the node table",
     text="Each d-DNNF returned by the real _compile/_load_nnf (dsharp) is checked node by node: decomposable and smooth syntactically, every OR node deterministic and the circuit equivalent to its CNF for all assignments by z3, labels/weights/constraints carried over.",
     note="Bounded by the set of CNFs explored. dsharp itself is trusted only through these validated outputs.")
+RVR = "run-vs-run differential through E1: both runs execute the real pipeline with symbolic weights; z3 decides identity of the rational functions (NRA) and agreement in all worlds (SAT)"
+CHECKS["C06"] = dict(engine="E1 symsem (diffcheck)", category=TV, technique=RVR + "; option vectors enumerated",
+    text="Default options vs each option vector (all single toggles, all pairs, seeded vectors; evidence spellings) on the same skeleton: both real-code runs yield rational functions of the symbolic parameters and z3 proves them identical for all parameter values, plus agreement on every evidence world. propagate_weights runs the real add_atom weight propagation on symbolic weights.",
+    note="Option vectors and skeletons are enumerated/sampled. Log-space vs normal space only anchored concretely (algebra in C12). Instances reported by one side only must be identically 0.")
+CHECKS["C07"] = dict(engine="E1 symsem (diffcheck)", category=TV, technique=RVR + "; permutations seeded",
+    text="Original vs permuted program text (statements, clauses, body literals with negated literals kept after their binders): z3 proves the two real-code results identical for all parameter values and all worlds.",
+    note="Permutations are seeded samples per skeleton (4 quick / 40 thorough); skeletons enumerated.")
 NOT_APPLICABLE = {}
